@@ -45,6 +45,10 @@ theorem hashes_registered (prog : Program) (h : secp ∈ prog.roots) :
   simp only [if_true] at this
   exact this (impl_in_deps hid hh)
 
+/-- the package asks nothing of a hash it gets from the registry beyond the `hash.Hash` interface (no type assertion, no
+extra method): whichever correct implementation another package of the program registered under the identifier works -/
+theorem hash_interface_only : Facts.hashExtraRequirements = [] := by decide
+
 -- non-vacuity: the minimal program (roots = just the package) satisfies the hypothesis
 example : ∃ prog : Program, secp ∈ prog.roots ∧ prog.roots = [secp] :=
   ⟨⟨[secp], Facts.rootDeps, by intro p hp d hd; simp at hp; subst hp; simpa using hd⟩, by simp, rfl⟩
